@@ -310,7 +310,8 @@ func (em *EModel) onFault(r *run, fr faultRec) {
 	}
 }
 
-func isWriteStmt(a *grl.Action) bool { return a.K != "log" }
+// a Log and a bare side-effect-free call produce no write event at the seams
+func isWriteStmt(a *grl.Action) bool { return a.K != "log" && a.K != "eval" }
 
 // finishFiring applies the pending rule's actions to the model and compares the facts.
 func (em *EModel) finishFiring(r *run) {
@@ -882,6 +883,21 @@ func assignCell(m *grl.Model, a *grl.Action) string {
 			shape = "nested-pointer-field"
 		default:
 			shape = "field"
+		}
+		if last.Sel != nil && n >= 2 && a.Path.Root != "J" {
+			switch a.Path.Steps[n-2].Field {
+			case "AI":
+				shape = "interface-slice-element"
+			case "MI":
+				shape = "int-key-map-entry"
+			}
+		}
+		if last.Sel == nil && a.Path.Root != "J" {
+			for _, st := range a.Path.Steps[:n-1] {
+				if st.Sel != nil {
+					shape = "field-of-container-element"
+				}
+			}
 		}
 		if last.Sel != nil && last.Sel.K != "lit" {
 			shape += "(computed-selector)"
